@@ -29,7 +29,7 @@ def model_checks(ctx):
         r = vlib.run_tlc(ctx, FAM, mod, mod + ".cfg")
         ctx.add_tlc(r)
     for mod, defects in (("XStreamConn", ("NoDelete", "ResetKeepsEntry", "ArrivalOrder")),
-                         ("XHop", ("HijackIdFromFrame", "NoDelete", "ArrivalOrder", "RecycleWhileReferenced"))):
+                         ("XHop", ("HijackIdFromFrame", "NoDelete", "ArrivalOrder", "RecycleWhileReferenced", "BodyAliasesReadBuffer"))):
         for d in defects:
             cfg = "%s_defect_%s.cfg" % (mod, d)
             if vlib.run_tlc(ctx, FAM, mod, cfg, expect_ok=False)["ok"]:
@@ -54,7 +54,7 @@ def features(case):
             f.add("tmo"); late.add(s["r"])
         if s["op"] == "ans" and s["r"] in late:
             f.add("late")
-        if s["op"] in ("dup", "ghost", "close", "race", "racegone"):
+        if s["op"] in ("dup", "ghost", "close", "race", "racegone", "inter"):
             f.add(s["op"])
     return f
 
@@ -120,17 +120,26 @@ def run(ctx):
     if not q:
         h6 = emit(ctx, "XHop", "XHop_emit_thorough.cfg")
         deep = len(h6)
-        hall6 = [json.loads(x) for x in rng.sample(h6, min(len(h6), 20000))]
+        hall6 = [json.loads(x) for x in rng.sample(h6, min(len(h6), 12000))]
     if q:
-        # every schedule in which a colliding id meets a proxy-made error reply or a late/duplicate answer, plus a VERIF_SEED sample
-        def core(c):
+        # classes that are always represented (VERIF_SEED sample of each), plus a sample of the rest:
+        #  A colliding id meets a proxy-made error reply or a late/duplicate answer;  B an answer races the end of its request;
+        #  C decode A / read B / encode A on the re-encoding route
+        def cls(c):
             f = features(c)
-            return ("collision" in f and ("late" in f or "dup" in f) and "tmo" in f) or "race" in f or "racegone" in f
-        keep = [c for c in hall if core(c)]
-        rest = [c for c in hall if not core(c)]
-        if len(keep) > 1300:
-            keep = rng.sample(keep, 1300)
-        hcases = keep + rng.sample(rest, min(len(rest), 1100))
+            if "inter" in f and c.get("reenc"):
+                return "C"
+            if "race" in f or "racegone" in f:
+                return "B"
+            if "collision" in f and ("late" in f or "dup" in f) and "tmo" in f:
+                return "A"
+            return "rest"
+        by = {}
+        for c in hall:
+            by.setdefault(cls(c), []).append(c)
+        hcases = []
+        for k, n in (("A", 500), ("B", 700), ("C", 500), ("rest", 700)):
+            hcases += rng.sample(by.get(k, []), min(n, len(by.get(k, []))))
     else:
         hcases = hall + hall6
     rng.shuffle(hcases)
@@ -179,10 +188,12 @@ def run(ctx):
     coll = sum(r.get("collisions", 0) for r in runs)
     div = sum(1 for r in runs if r.get("diverged", 0))
     ctx.cov["hop"] = dict(schedules_enumerated=len(hall), schedules_enumerated_depth6=deep, schedules_run=len(runs), id_collisions_realised=coll,
-                          schedules_with_unrealisable_step=div, response_vs_timeout_races_forced=sum(r.get("races", 0) for r in runs), skipped_after_lost_waits=skipped, lost_waits=lost)
+                          schedules_with_unrealisable_step=div, response_vs_timeout_races_forced=sum(r.get("races", 0) for r in runs),
+                          decode_read_encode_interleavings_forced=sum(r.get("inters", 0) for r in runs),
+                          schedules_on_reencoding_route=sum(1 for r in runs if r.get("reenc")), skipped_after_lost_waits=skipped, lost_waits=lost)
     ctx.cov["storm"] = dict(rounds=len(storms), requests=sum(r.get("requests", 0) for r in storms),
                             error_replies=sum(r.get("errors", 0) for r in storms),
-                            id_collisions=sum(r.get("collisions", 0) for r in storms), upstream_closes=sum(r.get("closed", 0) for r in storms))
+                            id_collisions=sum(r.get("collisions", 0) for r in storms), connections_on_reencoding_route=sum(r.get("reenc_conns", 0) for r in storms), upstream_closes=sum(r.get("closed", 0) for r in storms))
     h1s = [r for r in pres if not r.get("summary")]
     ctx.cov["h1"] = dict(rounds=len(h1s), requests=sum(r.get("requests", 0) for r in h1s), error_replies=sum(r.get("errors", 0) for r in h1s),
                          broken_connections=sum(r.get("noreply", 0) for r in h1s))
@@ -192,9 +203,10 @@ def run(ctx):
     ctx.cov["distinct_nontrivial"] = len(tcases) + len([c for c in hcases if features(c)])
     ctx.cov["exhaustive"] = not q
     ctx.cov["rule"] = ("table: every history of <=%d ops (new/resp for any waiter's latest id/ghost id/reset/connreset) over 3 waiters, id counter "
-                       "seeded at 2^32-2, replayed into the real bolt client stream connection; hop: every schedule of 5 steps (thorough: plus a VERIF_SEED sample of 20000 of the 6-step schedules) over 3 requests "
-                       "on <=2 downstream connections (send with fresh or colliding id and long or short timeout / ans / dup / ghost / tmo / race, racegone = answer held in its handler while the timeout / the client's disconnect ends the request / close) "
-                       "from XHop.tla (%d), quick = collision+timeout+late/dup core plus a VERIF_SEED sample; storm: VERIF_SEED-randomised "
+                       "seeded at 2^32-2, replayed into the real bolt client stream connection; hop: every schedule of 5 steps (thorough: plus a VERIF_SEED sample of 12000 of the 6-step schedules) over 3 requests "
+                       "on <=2 downstream connections (send with fresh or colliding id and long or short timeout / ans / dup / ghost / tmo / race, racegone = answer held in its handler while the timeout / the client's disconnect ends the request / inter = answer A decoded, answer B read and delivered on the same upstream connection, then A encoded / close), "
+                       "each on the plain route and on the route that adds headers both ways (proxy re-encodes from fields) "
+                       "from XHop.tla (%d), quick = VERIF_SEED samples of the collision+timeout+late/dup, answer-races-end and decode/read/encode classes and of the rest; storm: VERIF_SEED-randomised "
                        "pipelined clients on shared connections; h1: sequential HTTP/1.1 clients over pooled ping-pong upstream connections, 30%% of the "
                        "requests time out in the proxy before the upstream answers" % (5 if q else 6, len(hall)))
     if any(r.get("warm_failed") for r in summ) and not ctx.violations and not ctx.known_hits:
